@@ -1,5 +1,6 @@
 import LJT.Model.Huff
 import LJT.Model.Bits
+import LJT.Model.Nbits
 /-! Lossless (predictive) JPEG: point transform, predictors and differencing
 (jclossls.c, jcdiffct.c), undifferencing (jdlossls.c, jddiffct.c), difference
 category coding (jclhuff.c, jdlhuff.c).  All sampling factors are 1 (the compressor
@@ -107,9 +108,8 @@ def undiffRows (psv : Nat) (init : Int) : List Bool → List Int → List (List 
 
 /-! ### difference categories (H.1.2.2 as coded) -/
 
-def bitLen : Nat → Nat → Nat
-  | 0, _ => 0
-  | fuel + 1, x => if x = 0 then 0 else bitLen fuel (x / 2) + 1
+/-- number of significant bits (the `while (temp) { nbits++; temp >>= 1; }` loop) -/
+def bitLen (fuel x : Nat) : Nat := LJT.nbitsClz fuel x
 
 /-- `(nbits, extra-bit value, number of extra bits)` for a difference, as coded in
 `encode_mcus_huff`: the difference is taken modulo 2^16 -/
@@ -207,31 +207,37 @@ def gather (tblOf : List Nat) (items : List (Nat × Int)) (tbl : Nat) : List Nat
     if tblOf.getD ci 0 = tbl then a.modify (category d).1 (· + 1) else a) (Array.replicate 257 0)
   fr.toList
 
-def segBits (cds : List Huff.CDerived) (tblOf : List Nat) (items : List (Nat × Int)) : Option (List Bool) :=
-  items.foldlM (fun acc (ci, d) =>
-    match itemBits (cds.getD (tblOf.getD ci 0) ⟨[], []⟩) d with
-    | some b => some (acc ++ b)
-    | none => none) []
+/-- the bits of a sequence of coded differences (component index, difference) -/
+def segBits (cds : List Huff.CDerived) (tblOf : List Nat) : List (Nat × Int) → Option (List Bool)
+  | [] => some []
+  | (ci, d) :: is =>
+    match itemBits (cds.getD (tblOf.getD ci 0) ⟨[], []⟩) d, segBits cds tblOf is with
+    | some b, some r => some (b ++ r)
+    | _, _ => none
 
-/-- decode `n` MCUs of `nc` components each from a bit list -/
+/-- decode the `k` differences of one MCU, components `ci, ci+1, ..` -/
+def decodeMcu (dds : List Huff.DDerived) (tblOf : List Nat) :
+    Nat → Nat → List Bool → Option (List (Nat × Int) × List Bool)
+  | 0, _, bs => some ([], bs)
+  | k + 1, ci, bs =>
+    match decodeItem (dds.getD (tblOf.getD ci 0) ⟨[], [], [], []⟩) bs with
+    | none => none
+    | some (d, rest) =>
+      match decodeMcu dds tblOf k (ci + 1) rest with
+      | none => none
+      | some (ds, rest') => some ((ci, d) :: ds, rest')
+
+/-- decode `n` MCUs of `nc` components each from a bit list; returns the items and the
+unread bits (padding) -/
 def decodeItems (dds : List Huff.DDerived) (tblOf : List Nat) (nc : Nat) :
-    Nat → List Bool → Option (List (Nat × Int))
-  | 0, _ => some []
+    Nat → List Bool → Option (List (Nat × Int) × List Bool)
+  | 0, bs => some ([], bs)
   | n + 1, bs =>
-    let rec mcu : Nat → Nat → List Bool → Option (List (Nat × Int) × List Bool)
-      | 0, _, bs => some ([], bs)
-      | k + 1, ci, bs =>
-        match decodeItem (dds.getD (tblOf.getD ci 0) ⟨[], [], [], []⟩) bs with
-        | none => none
-        | some (d, rest) =>
-          match mcu k (ci + 1) rest with
-          | none => none
-          | some (ds, rest') => some ((ci, d) :: ds, rest')
-    match mcu nc 0 bs with
+    match decodeMcu dds tblOf nc 0 bs with
     | none => none
     | some (ds, rest) =>
       match decodeItems dds tblOf nc n rest with
       | none => none
-      | some more => some (ds ++ more)
+      | some (more, rest') => some (ds ++ more, rest')
 
 end LJT.LL
